@@ -61,7 +61,8 @@ Meths  == {"ref", "output", "loopref", "loopoutput"}
 (* The family of documents *)
 
 ShapeSpace == [off : Offsets, aux : BOOLEAN, sw : 0..1, sa : 0..1, sc : 0..1, carry : {"none", "W", "A"},
-               cond : {"W", "A", "S"}, repl : Repls, names : NameKinds, twin : Twins]
+               cond : {"W", "A", "S"}, repl : Repls, names : NameKinds, twin : Twins,
+               meth : {"output", "ref", "copy"}, file : BOOLEAN]
 
 (* Documents the loader legitimately supports (everything else is outside the property):            *)
 (*  - a consumer is never in an earlier stage than its producer, also across iterations               *)
@@ -79,6 +80,10 @@ ValidShape(s) ==
     /\ s.repl > 0 => (s.aux /\ s.carry # "W" /\ s.cond # "W" /\ s.names = "plain")
     /\ s.names = "tricky" => (s.aux /\ s.off + s.sw >= 1 /\ s.cond # "S")
     /\ s.twin => (s.repl = 0 /\ s.names = "plain")
+    \* the binding `inp` (original and loop-carried value) names the producer's stdout (:output, no file) or a FILE of the producer
+    \* (`state.txt`) with :output, :ref or :copy; the file variants are explored for the loops that carry a binding
+    /\ (s.meth # "output" => s.file)
+    /\ s.file => (s.carry # "none" /\ s.names = "plain" /\ ~s.twin /\ s.repl = 0 /\ s.cond # "S")
 
 Shapes == {s \in ShapeSpace : ValidShape(s)}
 
@@ -102,18 +107,19 @@ Reps(s, r) == IF s.repl > 0 /\ r = "W" THEN 0 .. (s.repl - 1) ELSE {NoRep}
 FixMeth(s) == IF s.names = "tricky" THEN "output" ELSE "ref"
 Bound(d)   == IF d = 1 THEN MaxK ELSE MaxK2
 
-Ref(st, it, p, rp, m) == [stage |-> st, iter |-> it, prod |-> p, rep |-> rp, meth |-> m]
+Ref(st, it, p, rp, m) == [stage |-> st, iter |-> it, prod |-> p, rep |-> rp, meth |-> m, file |-> FALSE]
+FileRef(st, it, p, rp, m, f) == [stage |-> st, iter |-> it, prod |-> p, rep |-> rp, meth |-> m, file |-> f]   \* f: names <producer>/state.txt
 
 (* The original bindings: both producers live in stage 0, outside the loop *)
-OrigInp    == Ref(0, NoIter, "gen", NoRep, "output")
+OrigInp(s) == FileRef(0, NoIter, "gen", NoRep, s.meth, s.file)
 OrigFix(s) == Ref(0, NoIter, "src", NoRep, FixMeth(s))
 
 (* What the loader has to make of the template's references for instance i of role r (replica j) of   *)
 (* loop d.  `prev` is the iteration the loop-carried input comes from.                                 *)
 RefsOf(s, d, i, r, prev) ==
     LET inp == IF i > 0 /\ s.carry # "none"
-               THEN Ref(Off(s, d) + Body(s, s.carry), prev, s.carry, NoRep, "output")    \* loop-carried
-               ELSE OrigInp                                                               \* original binding
+               THEN FileRef(Off(s, d) + Body(s, s.carry), prev, s.carry, NoRep, s.meth, s.file)    \* loop-carried
+               ELSE OrigInp(s)                                                                      \* original binding
     IN  IF r = "W"
         THEN {inp, OrigFix(s)}
         ELSE IF r = "A"
@@ -178,15 +184,15 @@ ExactInstances == /\ inst = UNION {UNION {NewInstances(sh, d, i) : i \in 0 .. k[
 (* "instance i>0 takes its loop-carried inputs from instance i-1" *)
 CarriedFromPrevious ==
     \A x \in inst : (x.role = "W" /\ x.iter > 0 /\ sh.carry # "none") =>
-        /\ \E q \in wire[x] : q.prod = sh.carry /\ q.iter = x.iter - 1 /\ q.meth = "output"
-        /\ OrigInp \notin wire[x]
+        /\ \E q \in wire[x] : q.prod = sh.carry /\ q.iter = x.iter - 1 /\ q.meth = sh.meth /\ q.file = sh.file
+        /\ OrigInp(sh) \notin wire[x]
         /\ \A q \in wire[x] : q.prod = sh.carry => q.iter = x.iter - 1
 
 (* "... and its other inputs from the original bindings" (and iteration 0 takes all of them from there) *)
 OthersFromOriginal ==
     \A x \in inst : /\ x.role \in {"W", "A"} => OrigFix(sh) \in wire[x]
-                    /\ (x.role = "W" /\ (x.iter = 0 \/ sh.carry = "none")) => OrigInp \in wire[x]
-                    /\ \A q \in wire[x] : q.iter = NoIter => q \in {OrigInp, OrigFix(sh)}
+                    /\ (x.role = "W" /\ (x.iter = 0 \/ sh.carry = "none")) => OrigInp(sh) \in wire[x]
+                    /\ \A q \in wire[x] : q.iter = NoIter => q \in {OrigInp(sh), OrigFix(sh)}
 
 (* references between looped components stay inside one iteration ... *)
 SameIterationInside ==
